@@ -163,6 +163,10 @@ class Items:
             base = t[1]
             if t[2] == 1 and t[3] == 0 and base is not None and base[0] == 'call' and is_next_call(base):
                 r = self.elem(n(base[2][0]), depth + 1)
+            elif t[2] == 1 and t[3] == 0 and base is not None and base[0] == 'call' and self.is_option_term(base) and \
+                    self.payload(n(base), depth + 1) not in (None, TOP, ('field', n(base), 1, 0)):
+                # the payload of `chain.find(p)` / `opt.map(f)` / `chain.find_map(f)`: what the search / mapping yields
+                r = n(self.payload(n(base), depth + 1))
             else:
                 nb = n(base)
                 r = self._proj(nb, t[2], t[3])
